@@ -57,6 +57,7 @@ def check(rep: Report, ctx: Ctx) -> None:
     r16(rep, ctx)
     r17(rep, ctx)
     r18(rep, ctx)
+    r19(rep, ctx)
 
 
 def r18(rep: Report, ctx: Ctx) -> None:
@@ -494,3 +495,78 @@ def r17(rep: Report, ctx: Ctx) -> None:
            "in that order", ok, fi=kp, node=call[0] if call else kp.node,
            detail="get_all_kill_edges_from_loop_nodes_and_end_points(graph, "
                   "nodes, {end_point}, {start_point})")
+
+
+# --------------------------------------------------------------------------
+def _dedups(defs, expr: ast.AST, seen: set[str]) -> Optional[ast.AST]:
+    """First construct on the derivation of ``expr`` (followed through local
+    names, comprehension sources and list-preserving wrappers) that collapses
+    repeated elements: a set / frozenset call, a set display or
+    comprehension, ``dict.fromkeys`` / ``.keys()`` of a dict built from it."""
+    if isinstance(expr, (ast.Set, ast.SetComp)):
+        return expr
+    if isinstance(expr, ast.Call):
+        d = (dotted(expr.func) or "").split(".")[-1]
+        if d in ("set", "frozenset", "fromkeys", "unique"):
+            return expr
+        if d in ("list", "sorted", "tuple", "reversed", "iter", "chain",
+                 "from_iterable") and expr.args:
+            for a in expr.args:
+                hit = _dedups(defs, a, seen)
+                if hit is not None:
+                    return hit
+        return None
+    if isinstance(expr, (ast.ListComp, ast.GeneratorExp)):
+        for g in expr.generators:
+            hit = _dedups(defs, g.iter, seen)
+            if hit is not None:
+                return hit
+        return None
+    if isinstance(expr, ast.BinOp) and isinstance(expr.op, ast.Add):
+        return _dedups(defs, expr.left, seen) or _dedups(defs, expr.right,
+                                                         seen)
+    if isinstance(expr, ast.IfExp):
+        return _dedups(defs, expr.body, seen) or _dedups(defs, expr.orelse,
+                                                         seen)
+    if isinstance(expr, ast.Name) and expr.id not in seen:
+        seen = seen | {expr.id}
+        for b in defs.of(expr.id):
+            if b.kind in ("assign", "aug") and b.value is not None:
+                hit = _dedups(defs, b.value, seen)
+                if hit is not None:
+                    return hit
+    return None
+
+
+def r19(rep: Report, ctx: Ctx) -> None:
+    """Successor / predecessor evidence is a family of *multisets* (two
+    parallel branches ending in the same event type are ``{X: 2}``).  A list
+    of event types that is compared with, or turned into, such a multiset
+    must reach the comparison with its repetitions intact."""
+    rep.rule("R1.9", "event-type lists keep their repetitions up to the "
+             "multiset they are compared with / stored as", 3)
+    sinks = []
+    for fi in ctx.index.all_functions():
+        for site in ctx.cg.sites_in(fi):
+            c = site.node
+            if not isinstance(c, ast.Call):
+                continue
+            nm = call_name(c)
+            if nm == "has_event_set_as_subset" and len(c.args) >= 2:
+                sinks.append((fi, c, c.args[1], "compared with the "
+                              "predecessor multisets"))
+            elif nm == "EventSet" and isinstance(c.func, ast.Name) \
+                    and len(c.args) == 1:
+                sinks.append((fi, c, c.args[0], "stored as a multiset"))
+    for fi, c, arg, what in sinks:
+        hit = _dedups(ctx.defs(fi), arg, set())
+        rep.ob("R1.9", f"{fi.short}: {call_name(c)}(...)", hit is None,
+               fi=fi, node=hit if hit is not None else c,
+               detail=(f"the event types {what} pass through "
+                       f"'{unparse(hit)[:60]}', which drops repeated types: "
+                       "a merge point reached by two branches ending in the "
+                       "same event is validated as if one branch reached it "
+                       "(the event is emitted once after the join and the "
+                       "jobs that ran it once per branch are rejected)"
+                       if hit is not None else
+                       "no de-duplicating construct on the way"))
